@@ -257,3 +257,84 @@ namespace vf
         return ops;
     }
 }
+
+namespace vf
+{
+    // Any program accepted by the documented rules (model_program), built by construction.
+    inline std::vector<OpSpec> gen_valid_program(vg::Src& s, bool allow_snapshots, ProgInfo* pinfo = nullptr)
+    {
+        using namespace vg;
+        std::vector<OpSpec> ops;
+        ProgInfo pi;
+        int snap_id = 0;
+        auto maybe_snap = [&](bool graph_ok)
+        {
+            if (!allow_snapshots || !s.chance(50))
+                return;
+            bool g = graph_ok && s.chance(200);
+            bool e = !g || s.coin();
+            ops.push_back(op_snap("s" + std::to_string(snap_id++), g, e));
+        };
+        maybe_snap(false);
+        if (s.chance(90))
+        {
+            ops.push_back(op_pflood());
+            pi.has_pflood = true;
+            maybe_snap(false);
+        }
+        bool single = !s.chance(90);
+        if (single)
+            ops.push_back(op_single(thread_choice(s, true), s.chance(40)));
+        else
+            ops.push_back(op_multi(slope_exp_value(s)));
+        maybe_snap(true);
+        if (single && s.chance(110))
+        {
+            int rr = s.coin() ? va::ROUTE_BASIC : va::ROUTE_CARVE;
+            ops.push_back(op_mst(s.coin() ? va::MST_BORUVKA : va::MST_KRUSKAL, rr));
+            pi.has_basic = rr == va::ROUTE_BASIC;
+            pi.has_carve = rr == va::ROUTE_CARVE;
+            maybe_snap(true);
+            if (s.chance(80))
+            {
+                bool m2 = s.coin();
+                if (m2)
+                    ops.push_back(op_multi(slope_exp_value(s)));
+                else
+                    ops.push_back(op_single(0));
+                single = !m2;
+                pi.d13_shape = pi.has_basic;
+                maybe_snap(true);
+            }
+        }
+        else if (single && s.chance(30))
+        {
+            ops.push_back(op_multi(slope_exp_value(s)));
+            single = false;
+            maybe_snap(true);
+        }
+        pi.final_multi = !single;
+        if (pinfo)
+            *pinfo = pi;
+        return ops;
+    }
+
+    // inverse of the receiver table: donors (with multiplicity), self links excluded
+    inline std::vector<std::vector<size_t>> model_donors(const GraphState& st)
+    {
+        std::vector<std::vector<size_t>> d(st.n);
+        for (size_t j = 0; j < st.n; ++j)
+            for (size_t k = 0; k < st.rec_count[j]; ++k)
+                if (R(st, j, k) != j)
+                    d[R(st, j, k)].push_back(j);
+        return d;
+    }
+
+    inline std::string label_prog(const std::vector<OpSpec>& ops)
+    {
+        std::string r;
+        for (auto& o : ops)
+            r += "SMPTN"[o.kind];
+        return r;
+    }
+}
